@@ -1,1 +1,2 @@
 import Props.C03
+import Props.C09
